@@ -157,6 +157,23 @@ DIRECTED = [
 ]
 
 
+FF_TURNS = [32766, 32767, 65534, 65535, 16383, 16382]
+
+
+def gen_ff(rng, k):
+    """fast-forwarded queue (see harness): full-queue programs that push through the 16-bit wrap of the slot versions."""
+    capn = rng.choice([1, 2, 2, 4])
+    turns = FF_TURNS[k % len(FF_TURNS)]
+    kind = k % 3
+    if kind == 0:      # collector holds a region-blocked batch, the queue fills behind it for two more turns
+        p = "B,R%d,W,S|Z50,L,Z8000,U" % (3 * capn + 1 + rng.below(3))
+    elif kind == 1:    # the queue is filled before start(): the producers of the next turn must wait for the collector
+        p = "Z%d,B,W,S|R%d|R%d" % (rng.choice([1500, 4000]), capn + 1 + rng.below(3), capn + rng.below(3))
+    else:              # several producers, regions coming and going
+        p = "B,R%d,W,S|R%d,L,Z3000,U,R%d|L,Z1500,U,R%d" % (2 * capn, 2 * capn + 1, capn + 1, 2 * capn)
+    return "%d@%d" % (capn, turns), p
+
+
 def gen_burst(rng):
     """-> (min-capacity, program): a full batch queued before start(), slow reclaimers, other threads open a region and
     retire in the middle of a batch and hold the region for several polls."""
@@ -214,6 +231,10 @@ def main(argv):
         for i in range(10 if not thorough else 60):
             mc, p = gen_burst(rng)
             progs.append(("u%d" % i, mc, p, False))
+        for i in range(18 if not thorough else 90):
+            mc, p = gen_ff(rng, i)
+            progs.append(("f%d" % i, mc, p, False))
+        progs.append(("f.burst", "128@32767", "Z3000,B,W,S|P500,R130,Q129,L,R,Z5000,U", False))
         for name, mc, p, _ in DIRECTED:
             progs.append((name, mc, p, False))
         nsched = 28 if not thorough else 100
@@ -230,6 +251,8 @@ def main(argv):
                     scheds[pid] = [(rng.below(1 << 31), [0, 3][i % 2], sn) for i in range(70 if not thorough else 300)]
                 else:
                     scheds[pid] = [(s, st, sn) for s, st, _ in base[:6]]
+            elif pid.startswith("f"):
+                scheds[pid] = [(s, st, 50) for s, st, _ in base[:4 if not thorough else 12]]
             elif pid.startswith("u"):
                 scheds[pid] = [(s, st, 50) for s, st, _ in base[:4 if not thorough else 12]]
             else:
@@ -239,7 +262,7 @@ def main(argv):
     for pid, mc, p, small in progs:
         for si, (seed, strat, step_ns) in enumerate(scheds[pid]):
             cid = "%s.%d" % (pid, si)
-            lines.append("%s %d %d %d %d %s" % (cid, seed, strat, step_ns, mc, p))
+            lines.append("%s %d %d %d %s %s" % (cid, seed, strat, step_ns, mc, p))
             meta[cid] = (pid, mc, p, small, seed, strat, step_ns)
     chk.log("%d programs, %d runs" % (len(progs), len(lines)))
     impl_out = chk.run_cases(impl, lines, timeout=900) if impl else {}
@@ -272,6 +295,10 @@ def main(argv):
     for cid, l in impl_out.items():
         pid, mc, p, small, seed, strat, step_ns = meta[cid]
         rep = {"mincap": mc, "program": p, "seed": seed, "strategy": strat, "step_ns": step_ns, "small": small, "impl_line": l[:600]}
+        if l.startswith("DSCHED-STUCK overfull-push"):
+            chk.violate("push-beyond-capacity", "retire() returned although the queue already held capacity unpopped tasks (an unpopped "
+                        "task was overwritten): program %s capacity>=%s: %s" % (p, mc, l[:300]), rep)
+            continue
         if l.startswith("DSCHED-STUCK"):
             kind = "deadlock" if "deadlock" in l.split()[1] else "livelock"
             admitted = small and pid in model_sets and any(o.endswith("STUCK") for o in model_sets[pid][0])
@@ -289,7 +316,7 @@ def main(argv):
         mon = dict(x.split("=") for x in verd.split())
         for m, sw in MON.items():
             if sw and mon.get(m) != "1":
-                chk.violate(sw[0], "%s: program %s capacity>=%d: %s ; %s" % (sw[1], p, mc, parts[1], detail), rep)
+                chk.violate(sw[0], "%s: program %s capacity>=%s: %s ; %s" % (sw[1], p, mc, parts[1], detail), rep)
         if mon.get("running") != "0":
             chk.broke("harness", "collector left running", l[:300])
         distinct.add((pid, parts[1]))
@@ -311,7 +338,9 @@ def main(argv):
                        "cases: stop with a region held open across the collector's last poll, queue of 1 full behind a "
                        "held-back head, restart, > 1 batch (1024) queued, retire before start, retire racing stop; burst cases "
                        "(capacity 128/256 filled before start, a whole batch reclaimed in one go with slow reclaimers, a region "
-                       "opened + a retire in the middle of the batch, region held past the next batch); the "
+                       "opened + a retire in the middle of the batch, region held past the next batch); fast-forwarded cases (queue "
+                       "indices and slot versions set as after 32766/32767/65534/65535/16382/16383 full turns of the ring, so "
+                       "that full-queue programs push through the 16-bit wrap of the slot versions); the "
                        "step length varies from 50 ns to 1 ms so that the collector's 1-100 ms back-off sleeps end in "
                        "every phase of the client programs; distinct non-trivial = distinct (program, observed outcome); "
                        "small programs are explored exhaustively in the extracted model and every implementation outcome "
